@@ -24,8 +24,9 @@ def run_property(pid: str, repo: str, tier: str, seed: int, quiet: bool = False,
         prog = Program(repo)
         from . import memo
 
-        memo.check(prog, ledger, pid)  # rule M (shared): no history-dependent memo on the property's path
+        m_floor = memo.check(prog, ledger, pid)  # rule M (shared): no history-dependent memo on the property's path
         mod.run(prog, ledger)
+        m_floor()  # the size floor of rule M's call-graph slice comes last: it must not pre-empt a verdict of the property's own rules
         return ledger.finish(), ledger, ""
     except AnalysisError as exc:
         if any(o.status == "violation" for o in ledger.obligations):
